@@ -22,7 +22,8 @@ CHECKS = {
                   "code by running real CryptoCore pairs and the extracted model on the same histories each run; the history-only reference "
                   "evaluated on the real accept/reject outcomes is the failing-input oracle. Connection and node level: PeerCrypto::every_second moves the window "
                   "of every key slot whatever handshake object and rotation do in that second (TickProofs.v); in every reachable node state the peer map "
-                  "lists no address twice and one housekeeping pass ticks every peer exactly once (TickPeersProofs.v, invariant over all node steps).",
+                  "lists no address twice and one housekeeping pass ticks every peer exactly once (TickPeersProofs.v, invariant over all node steps); every core "
+                  "of every reachable state is well-formed, hence one housekeeping pass moves every window of every encrypted peer connection (CoreWfProofs.v).",
              technique="Coq proof (invariant by induction over histories) + executed model/implementation correspondence", ref="5 (C03)"),
  "C11": dict(text="Theorems C11_* (Properties/C11.v): Range::matches equals the bit-by-bit prefix specification for every byte string and every "
                   "prefix 0..255 (byte-level facts by an in-kernel sweep of all 65536 byte pairs lifted with forallb_forall, the rest by induction); an "
@@ -140,7 +141,8 @@ CHECKS = {
              technique="Coq proof (table lemmas + node step case analysis) + executed correspondence with reference switch table", ref="5 (C13)"),
  "C14": dict(text="Theorems C14_* (Properties/C14.v): closure - two nodes joined by a path of k+1 connections are directly connected after k "
                   "peer-exchange rounds (induction on k, any graph); a handshake message carrying the node's own id is rejected at every stage with "
-                  "no state change and no reply (after the fix of F13); addresses listed under the own id are adopted as own and not dialled. "
+                  "no state change and no reply (after the fix of F13); addresses listed under the own id are adopted as own and not dialled; over WHOLE RUNS "
+                  "every peer of every reachable state was admitted by a handshake message of another node - a node never peers with itself (SelfProofs.v). "
                   "PARTIAL: that real nodes perform the exchange step within the interval, also behind NATs, is decided by the correspondence over "
                   "all connected bootstrap graphs of 2-4 nodes, sampled 5-node graphs, NAT and self-dial scenarios.",
              technique="Coq proof (induction over exchange rounds; handshake case analysis) + executed correspondence over bootstrap graphs", ref="5 (C14)"),
